@@ -226,6 +226,20 @@ pub fn run(a: &ShardArgs) -> serde_json::Value {
             !found
         });
     }
+    // the CLI values given through `Cucumber::with_cli()` still apply after every Cucumber-level
+    // builder method that rebuilds the value (child processes with a clean argv, see order.rs)
+    if a.mine(1) {
+        for (p, key, msg) in crate::order::run_children() {
+            if violations.len() < 40 {
+                violations.push(json!({
+                    "engine": "hist", "property": "C18", "tier": a.tier, "key": format!("order-{key}"),
+                    "extra": "cucumber-order",
+                    "message": format!("CLI options lost by a builder method: [{p}] {msg}"),
+                }));
+            }
+        }
+        evaluations += crate::order::METHODS.len();
+    }
     evaluations += stats.execs;
     nontrivial += stats.execs;
     json!({
@@ -239,6 +253,13 @@ pub fn run(a: &ShardArgs) -> serde_json::Value {
 }
 
 pub fn replay(j: &serde_json::Value) -> i32 {
+    if j["extra"].as_str() == Some("cucumber-order") {
+        let vs = crate::order::run_children();
+        for (p, k, m) in &vs {
+            println!("violation C18 (as {p}) [{k}]: {m}");
+        }
+        return i32::from(!vs.is_empty());
+    }
     if let Some(i) = j["e2e_index"].as_u64() {
         let e2e = crate::families::fam_resolve(if j["tier"].as_str() == Some("thorough") {
             crate::families::Tier::Thorough
